@@ -30,10 +30,13 @@ EXTRA_FLAGS = {"fileio": _SAN, "fileio_nn": _SAN + ["-fno-sanitize=null"]}
 # ---- one-line switches: set to "1" when the corresponding repair is in /repo; the Coq reader
 # ---- model is then run with the check (MMFormat.mm_checked / BinFormat.read_crs true), which
 # ---- is what theorems C19_mm_read_checked_safe / C19_bin_read_checked_safe are about.
-MM_CHK_INDEX = "0"      # precondition 0 <= i < n, 0 <= j < m, symmetric => square  (mm.hpp:186)
-MM_CHK_TRAILING = "0"   # precondition: no data after the announced entries          (mm.hpp:208)
-MM_CHK_RANGE = "0"      # precondition row_beg <= row_end                            (mm.hpp:163, 271)
-BIN_CHECKED = "0"       # ptr validated (front >= 0, non-decreasing, back <= nnz), row_beg <= row_end (binary.hpp:88-103)
+# The default below is THE one-line switch ("0000" = code as it is, "1111" = all four repairs in
+# /repo); VERIF_C19_FLAGS overrides it for trying a patched tree (VERIF_REPO=...).
+_FLAGS = (os.environ.get("VERIF_C19_FLAGS") or "0000").ljust(4, "0")
+MM_CHK_INDEX = _FLAGS[0]      # precondition 1 <= i <= n, 1 <= j <= m, symmetric => square  (mm.hpp:186)
+MM_CHK_TRAILING = _FLAGS[1]   # precondition: no data after the announced entries            (mm.hpp:208)
+MM_CHK_RANGE = _FLAGS[2]      # precondition row_beg <= row_end                              (mm.hpp:163, 271)
+BIN_CHECKED = _FLAGS[3]       # ptr validated (front >= 0, non-decreasing, back <= nnz), row_beg <= row_end (binary.hpp:88-103)
 MODEL_ENV = {"C19_FLAGS": MM_CHK_INDEX + MM_CHK_TRAILING + MM_CHK_RANGE + BIN_CHECKED}
 IMPL_ENV = {"OMP_NUM_THREADS": "1", "UBSAN_OPTIONS": "print_stacktrace=1:symbolize=0",
             "ASAN_OPTIONS": "detect_leaks=0:allocator_may_return_null=1:symbolize=0"}
